@@ -15,7 +15,13 @@ def run(chk):
         "time passes only in the operation and the sleeper; monotonic clock non-decreasing; 1/64 s grid",
         "decision callbacks (classifier, strategy, sleep handler, sleeper) do not raise ordinary exceptions; attempt_timeout_s=None",
     ]
-    rc.run_runner_check(chk, "C11", "proj_C11", OPTS)
+    ok = chk.check_theorems()
+    rc.run_runner_check(chk, "C11", "proj_C11", OPTS, theorems_ok=ok)
+    # the outcome builders used when a Policy has no retry component, and circuit-open outcomes: Policy model
+    import policy_common as pc
+    pc.run_policy_check(chk, "C11", "proj_P12", {"mode": "execute", "p_no_retry": 0.6, "p_nested_coe": 0.3, "p_special": 0.3,
+                                                  "specials": ["A", "C", "N", "N"]}, oracle_pid="C11P", theorems_ok=ok,
+                        cov_key="policy_outcomes", n_quick=200, n_thorough=3000)
 
 
 def replay(path):
